@@ -77,6 +77,17 @@ def NoFakeMarker : List Item → Prop
   | .tup a _ :: rest => a ≠ "np.memmap" ∧ NoFakeMarker rest
   | _ :: rest => NoFakeMarker rest
 
+/-- result files on disk: path ↦ the records last written there.  `write_pickle` opens its file with "wb": whatever an earlier
+call (an earlier run of the tool with the same `-o`) left under that path is gone -/
+abbrev Disk := List (String × List Rec)
+
+def Disk.write (d : Disk) (path : String) (rs : List Rec) : Disk := (path, rs) :: d.filter (fun e => e.1 != path)
+def Disk.read (d : Disk) (path : String) : Option (List Rec) := (d.find? (fun e => e.1 == path)).map (·.2)
+
+/-- `--min_boundary_distance d` on an axis of extent `n`: the voxels post-processing may report (`centered_mask` keeps
+`[d, n-d)`, the peak callers keep `d ≤ x < n - d`) -/
+def keptAt (d n x : Nat) : Bool := decide (d ≤ x) && decide (x + d < n)
+
 /-- reference position of a planted template: its box corner `P0` plus the voxel `m//2` the score frame uses -/
 def refPos : List Nat → List Int → List Int
   | m :: ms, p :: ps => (p + ((m / 2 : Nat) : Int)) :: refPos ms ps
